@@ -6,6 +6,8 @@ import ast
 from .core import Finding, RuleResult
 from .model import AnalysisError, dotted_name, norm, walk_no_nested
 from .grading import KernelAnalysis
+from .affine import Aff
+_AFF_D = Aff.var('#D')
 
 ALGO = 'algopy.utpm.algorithms'
 UTPM_MOD = 'algopy.utpm.utpm'
@@ -128,10 +130,10 @@ def rule_pb_grade(prop):
 
 
 def _delegates(m, fi, ka, have, depth=0):
-    """A listed kernel that stores no coefficient itself but hands its graded arrays to a private helper (a module
+    """A listed kernel that hands its graded arrays to a private helper (a module
     function or a method of the same class that is not itself a listed kernel): the helper holds the recurrence and is
     analysed in the kernel's place, its graded parameters being those that receive graded arrays.  -> [(name, analysis)]"""
-    if ka.stores or depth > 1:
+    if depth > 1:
         return []
     found = []
     for c in walk_no_nested(fi.node):
@@ -153,21 +155,64 @@ def _delegates(m, fi, ka, have, depth=0):
             continue
         params = h.value_params()
         graded = set()
+        objs = set()        # parameters receiving UTPM objects whose .data is graded in the caller
         for i, a in enumerate(c.args):
-            if isinstance(a, ast.Name) and a.id in ka.gvars and i < len(params):
+            if ka._arr_name(a) in ka.gvars and i < len(params):
                 graded.add(params[i])
+            elif isinstance(a, ast.Name) and a.id + '.data' in ka.gvars and i < len(params):
+                objs.add(params[i])
         for k in c.keywords:
-            if k.arg and isinstance(k.value, ast.Name) and k.value.id in ka.gvars:
+            if k.arg and ka._arr_name(k.value) in ka.gvars:
                 graded.add(k.arg)
-        if not graded:
+            elif k.arg and isinstance(k.value, ast.Name) and k.value.id + '.data' in ka.gvars:
+                objs.add(k.arg)
+        if not graded and not objs:
             continue
-        hka = KernelAnalysis(h, graded_params=graded, model=m)
+        # parameters that receive the caller's truncation degree
+        dpar = set()
+        for i, a in enumerate(c.args):
+            if isinstance(a, ast.Name) and a.id in ka.dsyms and i < len(params) and str(ka.aff_env.get(a.id)) == str(_AFF_D):
+                dpar.add(params[i])
+        for k in c.keywords:
+            if k.arg and isinstance(k.value, ast.Name) and k.value.id in ka.dsyms and str(ka.aff_env.get(k.value.id)) == str(_AFF_D):
+                dpar.add(k.arg)
+        hka = KernelAnalysis(h, graded_params=graded, extra_dsyms=dpar, model=m)
+        for o in objs:
+            hka._decl(o + '.data', 'in')
         if 'out' in graded and 'out' in hka.gvars:
             hka._decl('out', 'out')
         hka.run()
         found.append((h.name, hka))
         found.extend(_delegates(m, h, hka, have | {h.name}, depth + 1))
     return found
+
+
+def _existence_guard(ka, st):
+    """`if D > c:` (also `D >= c+1`, `c < D`) with no else-branch whose body touches graded arrays at constant coefficient
+    indices only, the largest being c: the guard says exactly that this coefficient exists, so lower orders cannot
+    depend on the truncation degree through it"""
+    t = st.test
+    if st.orelse or not (isinstance(t, ast.Compare) and len(t.ops) == 1):
+        return False
+    l, r_, op = t.left, t.comparators[0], t.ops[0]
+    c = None
+    if isinstance(l, ast.Name) and l.id in ka.dsyms and isinstance(r_, ast.Constant) and isinstance(r_.value, int):
+        c = r_.value if isinstance(op, ast.Gt) else (r_.value - 1 if isinstance(op, ast.GtE) else None)
+    elif isinstance(r_, ast.Name) and r_.id in ka.dsyms and isinstance(l, ast.Constant) and isinstance(l.value, int):
+        c = l.value if isinstance(op, ast.Lt) else (l.value - 1 if isinstance(op, ast.LtE) else None)
+    if c is None or str(ka.aff_env.get(l.id if isinstance(l, ast.Name) else r_.id)) != str(_AFF_D):
+        return False
+    idx = []
+    for b in st.body:
+        for n in ast.walk(b):
+            if isinstance(n, ast.Subscript) and ka._arr_name(n.value) in ka.gvars:
+                first = n.slice.elts[0] if isinstance(n.slice, ast.Tuple) and n.slice.elts else n.slice
+                if not (isinstance(first, ast.Constant) and isinstance(first.value, int) and not isinstance(first.value, bool)):
+                    return False
+                idx.append(first.value)
+            if isinstance(n, (ast.For, ast.While)):
+                return False
+    return bool(idx) and max(idx) == c and min(idx) >= 0
 
 
 def analyse_all(ctx):
@@ -223,7 +268,7 @@ def rule_grade(prop):
         res = analyse_all(ctx)
         n_k = 0
         for name, (grp, ka) in sorted(res.items()):
-            if grp not in groups and not ('det' in groups and name == 'UTPM.lu2'):
+            if grp not in groups and not ('det' in groups and name.startswith('UTPM.lu2')):
                 continue
             n_k += 1
             fi = ka.fi
@@ -252,6 +297,9 @@ def rule_grade(prop):
                     key = (fi.name, norm(st.test))
                     if all(isinstance(b, ast.Raise) for b in st.body) and not st.orelse:
                         r.ok(construct=fi.fq + ':shape-guard', sample='%s: `%s` only raises (input validation)' % (fi.qualname, norm(st.test)))
+                    elif _existence_guard(ka, st):
+                        r.ok(construct=fi.fq + ':existence-guard', sample='%s: `%s` is the existence condition of the coefficient index its body touches'
+                                                                          % (fi.qualname, norm(st.test)))
                     elif key in DEGREE_GUARDS:
                         r.note('%s: guard `%s` on the truncation degree accepted: %s' % (fi.qualname, norm(st.test), DEGREE_GUARDS[key]))
                         r.ok(construct=fi.fq + ':guard')
